@@ -650,6 +650,57 @@ m("c11-merge-naked-delete-keeps-start-tail-from-cursor", "C11", "nomt/src/merkle
         ("nomt/src/merkle/seek.rs",
          "                if key_path == Some(&overlay_key) {\n                    // The leaf data has been updated in the overlay.\n                    beatree_leaf_idx += 1;\n                }",
          "                final_leaf_data_collection\n                    .extend_from_slice(&collected_leaf_data[start_idx..beatree_leaf_idx]);\n                if key_path == Some(&overlay_key) {\n                    // The leaf data has been updated in the overlay.\n                    beatree_leaf_idx += 1;\n                }\n                start_idx = beatree_leaf_idx;")])
+# ---- C09 E1/E2: the persistent form of a reverse delta keeps `absent` and `empty value` apart ----
+m("c09-delta-decode-erase-as-empty", "C09", "nomt/src/rollback/delta.rs",
+  "            let preemted = priors.insert(key_path, None).is_some();",
+  "            let preemted = priors.insert(key_path, Some(Vec::new())).is_some();",
+  "C09|E2|rollback::delta::Delta::decode|both-variants-decodable")
+m("c09-delta-encode-forgets-variant", "C09", "nomt/src/rollback/delta.rs",
+  "            match value {\n                None => to_erase.push(key),\n                Some(value) => to_reinstate.push((key, value)),\n            }",
+  "            let _ = &to_erase;\n            to_reinstate.push((key, value.as_ref().unwrap_or(&empty)));",
+  "C09|E1|rollback::delta::Delta::encode|presence-of-prior-encoded",
+  also=[("nomt/src/rollback/delta.rs",
+         "        let mut to_erase = Vec::with_capacity(self.priors.len());",
+         "        let empty: Vec<u8> = Vec::new();\n        let mut to_erase: Vec<&KeyPath> = Vec::with_capacity(self.priors.len());")])
+m("benign-delta-encode-is-none", "C09", "nomt/src/rollback/delta.rs",
+  "            match value {\n                None => to_erase.push(key),\n                Some(value) => to_reinstate.push((key, value)),\n            }",
+  "            if value.is_none() {\n                to_erase.push(key);\n            } else {\n                to_reinstate.push((key, value.as_ref().unwrap()));\n            }",
+  None)
+# ---- C14 R9: libc calls that return the error number are not judged by the -1 convention ----
+m("c14-posix-fallocate-behind-cvt", "C14", "nomt/src/beatree/allocator/mod.rs",
+  "    file.set_len(next_bump as u64 * PAGE_SIZE as u64)?;",
+  "    crate::sys::linux::falloc_extend_file(file, next_bump as u64 * PAGE_SIZE as u64)?;",
+  "C14|R9|sys::linux::falloc_extend_file::{closure#0}|errno-returning|posix_fallocate",
+  also=[("nomt/src/sys/linux.rs",
+         "/// fallocate changes the size of the file to the given length if it's less than the current size.",
+         "pub fn falloc_extend_file(file: &File, len: u64) -> std::io::Result<()> {\n    cvt_r(|| unsafe { libc::posix_fallocate(file.as_raw_fd(), 0 as _, len as _) }).map(drop)\n}\n\n/// fallocate changes the size of the file to the given length if it's less than the current size.")])
+m("benign-posix-fallocate-errno-checked", "C14", "nomt/src/beatree/allocator/mod.rs",
+  "    file.set_len(next_bump as u64 * PAGE_SIZE as u64)?;",
+  "    crate::sys::linux::falloc_extend_file(file, next_bump as u64 * PAGE_SIZE as u64)?;",
+  None,
+  also=[("nomt/src/sys/linux.rs",
+         "/// fallocate changes the size of the file to the given length if it's less than the current size.",
+         "pub fn falloc_extend_file(file: &File, len: u64) -> std::io::Result<()> {\n    loop {\n        let r = unsafe { libc::posix_fallocate(file.as_raw_fd(), 0 as _, len as _) };\n        if r == 0 {\n            return Ok(());\n        }\n        if r != libc::EINTR {\n            return Err(std::io::Error::from_raw_os_error(r));\n        }\n    }\n}\n\n/// fallocate changes the size of the file to the given length if it's less than the current size.")])
+m("benign-posix-fallocate-errno-helper", "C14", "nomt/src/beatree/allocator/mod.rs",
+  "    file.set_len(next_bump as u64 * PAGE_SIZE as u64)?;",
+  "    crate::sys::linux::falloc_extend_file(file, next_bump as u64 * PAGE_SIZE as u64)?;",
+  None,
+  also=[("nomt/src/sys/linux.rs",
+         "/// fallocate changes the size of the file to the given length if it's less than the current size.",
+         "fn cvt_errno<F: FnMut() -> i32>(mut f: F) -> std::io::Result<()> {\n    loop {\n        match f() {\n            0 => return Ok(()),\n            libc::EINTR => continue,\n            e => return Err(std::io::Error::from_raw_os_error(e)),\n        }\n    }\n}\n\npub fn falloc_extend_file(file: &File, len: u64) -> std::io::Result<()> {\n    cvt_errno(|| unsafe { libc::posix_fallocate(file.as_raw_fd(), 0 as _, len as _) })\n}\n\n/// fallocate changes the size of the file to the given length if it's less than the current size.")])
+# ---- C11 S9: stored items are filtered by the overlay's deletions before they complete a leaf fetch ----
+m("c11-leaf-fetch-overflow-skip-ignored", "C11", "nomt/src/merkle/seek.rs",
+  "                    if should_skip {\n                        continue;\n                    }\n\n                    break (key, value_hash);",
+  "                    let _ = should_skip;\n\n                    break (key, value_hash);",
+  "C11|S9|merkle::seek::SeekRequest::continue_leaf_fetch|item-filtered-by-overlay-deletions")
+m("c11-leaf-fetch-filter-on-position", "C11", "nomt/src/merkle/seek.rs",
+  "                    let (new_d_idx, should_skip) =\n                        manage_deletions(&overlay_deletions, deletions_idx, &key);\n                    deletions_idx = new_d_idx;\n                    if should_skip {\n                        continue;\n                    }\n\n                    break (key, H::hash_value(&value));",
+  "                    if overlay_deletions.len() > deletions_idx + 1_000_000 {\n                        continue;\n                    }\n\n                    break (key, H::hash_value(&value));",
+  "C11|S9|merkle::seek::SeekRequest::continue_leaf_fetch|item-filtered-by-overlay-deletions")
+m("benign-leaf-fetch-binary-search", "C11", "nomt/src/merkle/seek.rs",
+  "                    let (new_d_idx, should_skip) =\n                        manage_deletions(&overlay_deletions, deletions_idx, &key);\n                    deletions_idx = new_d_idx;\n                    if should_skip {\n                        continue;\n                    }\n\n                    break (key, H::hash_value(&value));",
+  "                    if overlay_deletions.binary_search(&key).is_ok() {\n                        continue;\n                    }\n\n                    break (key, H::hash_value(&value));",
+  None)
 # ---- C11 P1/P2 overlay status domain ----
 m("c11-complete-when-not-live", "C11", "nomt/src/overlay.rs",
   "            .map_or(false, |status| !status.is_committed())",
